@@ -229,6 +229,12 @@ def run(ctx, rep, tier="quick"):
             if k_.arg and k_.arg != "metric_val" and U(k_.value) != f"{slotp[0]}.{k_.arg}":
                 wrong.append(f"{k_.arg}={U(k_.value)}")
         okr = not wrong and not mk[0].args and {"rung_index", "level", "slot_index", "trial_id"} <= {k_.arg for k_ in mk[0].keywords}
+    if not mk and len(slotp) == 1:
+        # ... or a copy of the pending slot with only the metric value replaced: dataclasses.replace(slot, metric_val=...)
+        rp = [x for x in walk_shallow(rf.node) if isinstance(x, ast.Call) and fn_name(x) == "replace" and x.args and U(x.args[0]) == slotp[0]
+              and (isinstance(x.func, ast.Name) or U(x.func.value) in ("dataclasses", "copy"))]
+        okr = len(rp) == 1 and len(rp[0].args) == 1 and {k_.arg for k_ in rp[0].keywords} == {"metric_val"}
+        wrong = [f"{k_.arg}={U(k_.value)}" for k_ in (rp[0].keywords if rp else []) if k_.arg != "metric_val"]
     rep.put(okr, "S3", "agreement", "SynchronousHyperbandScheduler._report_as_failed: the NaN record copies every identifying field of the pending slot", rf,
             mk[0] if mk else None, "rung_index, level, slot_index, trial_id taken from the slot; metric_val = NaN",
             f"the record differs from the pending slot in {wrong or 'a missing field'}: the bracket's consistency check on the slot rejects it "
